@@ -2,6 +2,7 @@
 use crate::key_codes::KeyCode;
 
 #[derive(Debug, PartialEq, Eq, Clone)]
+#[cfg_attr(ellbur_totalmapper_verif, derive(Hash))]
 pub enum Event {
   Pressed(KeyCode),
   Released(KeyCode)
